@@ -26,8 +26,10 @@ def entry(pid):
             "design_ref": p.get("design_ref", "DESIGN.md section 4, " + pid),
         },
         "level_note": p.get("level_note", "Trusted base: TLC; the toy interpretation (collision-free hashes, generic group, fixed samples); the hash and curve crates shared by library and reference evaluator; bounded constants as recorded in the evidence."),
-        "technique": p.get("technique", "TLA+ specification checked by TLC; exported behaviours replayed into the library; recorded traces validated against the specification"),
+        "technique": p.get("technique", TECHNIQUE.get(pid, "TLA+ specification checked by TLC; exported behaviours replayed into the library; recorded traces validated against the specification")),
     }
+
+TECHNIQUE = {'C01': 'explicit TLA+ specification (Api.tla over Toy / BBS / Layouts) model-checked by TLC on the bounded slices MC_sig, MC_shape (shape and sweep families); every behaviour TLC finds is exported and replayed into the library (specification -> implementation, decisions and octets compared); randomised API traces recorded from the library are validated by TLC against Trace_Api.tla (implementation -> specification)', 'C02': 'explicit TLA+ specification (Api.tla over Toy / BBS / Layouts) model-checked by TLC on the bounded slices MC_sig, MC_shape (edits, swaps at block distances); every behaviour TLC finds is exported and replayed into the library (specification -> implementation, decisions and octets compared); randomised API traces recorded from the library are validated by TLC against Trace_Api.tla (implementation -> specification)', 'C03': 'explicit TLA+ specification (Api.tla over Toy / BBS / Layouts) model-checked by TLC on the bounded slices MC_proof (honest mode), MC_shape (shape and sweep families); every behaviour TLC finds is exported and replayed into the library (specification -> implementation, decisions and octets compared); randomised API traces recorded from the library are validated by TLC against Trace_Api.tla (implementation -> specification)', 'C04': 'explicit TLA+ specification (Api.tla over Toy / BBS / Layouts) model-checked by TLC on the bounded slices MC_proof (adversarial mode: edits, tampering, crafted proofs incl. low-order points), MC_shape (resized proofs); every behaviour TLC finds is exported and replayed into the library (specification -> implementation, decisions and octets compared); randomised API traces recorded from the library are validated by TLC against Trace_Api.tla (implementation -> specification)', 'C05': 'explicit TLA+ specification (Api.tla over Toy / BBS / Layouts) model-checked by TLC on the bounded slices MC_blind (honest mode), MC_shape (shape and sweep families); every behaviour TLC finds is exported and replayed into the library (specification -> implementation, decisions and octets compared); randomised API traces recorded from the library are validated by TLC against Trace_Api.tla (implementation -> specification)', 'C06': 'explicit TLA+ specification (Api.tla over Toy / BBS / Layouts) model-checked by TLC on the bounded slices MC_blind (adversarial mode), MC_shape (tampered commitments), MC_protocol (holders, issuer, verifier, attacker on the wire); every behaviour TLC finds is exported and replayed into the library (specification -> implementation, decisions and octets compared); randomised API traces recorded from the library are validated by TLC against Trace_Api.tla (implementation -> specification)', 'C12': 'explicit TLA+ specification (Api.tla over Toy / BBS / Layouts) model-checked by TLC on the bounded slices MC_update (update histories), MC_shape; every behaviour TLC finds is exported and replayed into the library (specification -> implementation, decisions and octets compared); randomised API traces recorded from the library are validated by TLC against Trace_Api.tla (implementation -> specification)', 'C07': 'TLA+ specification Rng.tla model-checked by TLC (freshness and consumption map; the shared-stream variant must violate Fresh); randomness traces recorded through the rng_draw hook on 1..16 threads and several processes (with a burst phase), validated by TLC against Trace_Rng.tla', 'C08': 'TLA+ specification Codec.tla (decoders as total functions, count arithmetic of the entry points) model-checked by TLC (MC_codec); every decode / count case exported and replayed into the library under catch_unwind with a generator budget; unbounded count lemmas discharged by Apalache (spec/apalache/Lemmas.tla)', 'C09': 'TLA+ specification Codec.tla model-checked by TLC (MC_codec); every (codec, length, field class) case exported and replayed: decision, re-encoding, bit flips, octets / coordinates / JSON round trips; RoundTrip events of the API traces validated by TLC', 'C10': 'translation validation against the specification: Layouts.tla (hash inputs and wire encodings) exported by TLC and interpreted by an independent reference evaluator; library octets and accept/reject decisions compared with it on the behaviours TLC exports and on the grid of MC_det (every two-thread schedule of the deterministic operations model-checked)', 'C11': 'TLA+ specification: MC_inject (injectivity of every hash-input layout) model-checked by TLC; cross-suite / cross-interface behaviours of the Api slices exported and replayed; generator sets of the MC_det grid checked for prefix consistency, duplicates, identity, P1 and disjointness', 'C13': 'explicit TLA+ specification (CL03.tla) evaluated by TLC on the bounded instances of MC_cl (C13toy: toy RSA groups, every derivation); driver logs of the real library (feature cl03), one event per observation, validated by TLC against Trace_CL.tla (implementation -> specification); derivations and the behaviours of MC_clproto (issuance / presentation state machine, invariants checked by TLC) exported and replayed on real keys (specification -> implementation)', 'C14': 'explicit TLA+ specification (CL03.tla) evaluated by TLC on the bounded instances of MC_cl (C15used); driver logs of the real library (feature cl03), one event per observation, validated by TLC against Trace_CL.tla (implementation -> specification); the behaviours of MC_clproto (C14honest, C14refuses checked by TLC) exported and replayed on real keys (specification -> implementation)', 'C15': 'explicit TLA+ specification (CL03.tla) evaluated by TLC on the bounded instances of MC_cl (C15used, missing links); driver logs of the real library (feature cl03), one event per observation, validated by TLC against Trace_CL.tla (implementation -> specification); the presentation branch of MC_clproto (C15asmade) exported and replayed on real keys', 'C16': 'explicit TLA+ specification (CL03.tla) evaluated by TLC on the bounded instances of MC_cl (C16anchored, C16tolerance); driver logs of the real library (feature cl03), one event per observation, validated by TLC against Trace_CL.tla (implementation -> specification); the tolerance arithmetic for all parameters discharged by Apalache (spec/apalache/BoudotLemmas.tla)', 'C17': 'explicit TLA+ specification (CL03.tla) evaluated by TLC on the bounded instances of MC_cl (C17noOpenings, C17split); driver logs of the real library (feature cl03), one event per observation, validated by TLC against Trace_CL.tla (implementation -> specification)', 'C18': "explicit TLA+ specification (CL03.tla) evaluated by TLC on the bounded instances of MC_cl (C18toy: every toy modulus from safe primes below the bound); driver logs of the real library (feature cl03), one event per observation, validated by TLC against Trace_CL.tla (implementation -> specification); the same facts observed on the library's key generation run with a toy ciphersuite at the model's sizes", 'C19': 'explicit TLA+ specification (CL03.tla) evaluated by TLC on the bounded instances of MC_cl (C19masks: table of blinding lengths); driver logs of the real library (feature cl03), one event per observation, validated by TLC against Trace_CL.tla (implementation -> specification); the arithmetic behind the table discharged for all values by Apalache (spec/apalache/MaskLemmas.tla)'}
 
 m = {
     "version": 1,
